@@ -883,3 +883,30 @@ CHECKS["C11"].update({
     "technique": ("Lean 4 proof over the builder model (exactness from the specification's rules, permutation, rejection classes, public "
                   "extend_schema strict/lax) + schema-dump correspondence + declared-content and labelled-defect oracles"),
 })
+
+
+# ---------------------------------------------------------------------------------------------------------------
+# C11 — repairs after audit 3 (findings F2, F3, F4), builder bld3: appended to the text above.
+# ---------------------------------------------------------------------------------------------------------------
+CHECKS["C11"]["text"] += (
+    " AUDIT-3 REPAIRS. (F2) Spec/SdlDeclared.lean DeclaredSpec: the declared content as RELATIONS per attribute (name, kind, description, "
+    "fields with arguments / types / descriptions / deprecation - reason from @deprecated(reason:), default text 'No longer supported' -, "
+    "interfaces, union members, enum values, input fields, directive locations, python_name, 'nothing else'; roots as DeclaresRoot = the last "
+    "operation binding of the schema / extend schema blocks, else the object type with the default name) which mentions no build* function; "
+    "declared_meets_spec (Declared doc = some c -> DeclaredSpec doc c), spec_determines (the relation has at most one solution: dropping a "
+    "description, a location, a deprecation or reordering members falsifies it), declaredSpec_iff, build_exact_final_spec / "
+    "build_exact_spec_independent. Defaults stay behind the shared coercion CoercesTo (= valueFromAst; C07 owns its theorems). (F3) "
+    "Spec/SdlRules.lean: the rules behind SdlValid.declares as named clauses (Known, DeprecatedOK, ArgOK, FieldOK, EnumValueOK, TypeDefOK, "
+    "DirDefOK); buildTypeDef_ok_iff / buildDirective_ok_iff / declares_iff_rules / sdlValid_iff_rules: the member builders succeed EXACTLY "
+    "on them. (F4) REJECTION COMPLETENESS about build itself (Props/C11_reject_complete.lean): collect_ok_rules; build_rejects_dup_type / "
+    "_dup_directive / _second_schema / _specified_name (= SDLError exactly, any flags / supplied types); build_rejects_invalid_type_def and "
+    "its instances _unknown_field_type / _unknown_argument_type / _unknown_interface / _unknown_union_member / _unknown_input_field_type / "
+    "_dup_enum_value / _bad_default; build_rejects_invalid_directive_def; build_rejects_unknown_root; build_rejects_ext_wrong_kind; "
+    "build_rejects_ext_dup_field / _input_field / _enum_value / _union_member / _interface (member already in the target); "
+    "build_rejects_ext_repeated_field / _enum_value / _input_field / _union_member (same member in two extension blocks or twice in one). "
+    "For the member and extension rules the conclusion is Rejected = build fails with a library class or the RecursionError of S1b (an "
+    "earlier definition of the document may fail first). corpus/C11/reject_rules.json: one document per theorem, checked against the real "
+    "builder (direct oracle + correspondence) in every run.")
+CHECKS["C11"]["note"] += (
+    " After audit 3: 'a root operation type must be an object type' is not a builder rule (Schema.validate, C13) and has no C11 theorem; "
+    "the exact error class per member rule and CoercesTo against C07's declarative coercion remain open.")
